@@ -53,6 +53,18 @@ func parseInfluxLine(
 	multiplier int64,
 	limits *models.Limits,
 ) error {
+	return parseInfluxLineWithEnrichedTags(builder, content, namespace, multiplier, limits, 0)
+}
+
+// parseInfluxLineWithEnrichedTags parses a line, numOfEnrichedTags tags will be added to the row by the caller.
+func parseInfluxLineWithEnrichedTags(
+	builder *commonseries.RowBuilder,
+	content []byte,
+	namespace string,
+	multiplier int64,
+	limits *models.Limits,
+	numOfEnrichedTags int,
+) error {
 	// skip comment line
 	if bytes.HasPrefix(content, []byte{'#'}) {
 		return nil
@@ -79,6 +91,10 @@ func parseInfluxLine(
 	tags, err := parseTags(content, metricEndAt+1, tagsEndAt, escaped)
 	if err != nil {
 		return err
+	}
+
+	if limits.EnableTagsCheck() && len(tags)+numOfEnrichedTags > limits.MaxTagsPerMetric {
+		return constants.ErrTooManyTagKeys
 	}
 
 	for k, v := range tags {
